@@ -229,7 +229,15 @@ def parse(text):
             while p.op(","):
                 cols.append(p.ident())
             p.need_op(")")
-            st["ddl"] = {"if_not_exists": ine, "index": iname, "columns": cols, "unique": unique}
+            partial = None
+            if p.kw("WHERE"):
+                # partial index: keep the predicate as raw tokens (it does not change which columns form the key)
+                toks = []
+                while p.peek()[0] != "eof" and p.peek() != ("op", ";"):
+                    toks.append(str(p.peek()[1]))
+                    p.i += 1
+                partial = " ".join(toks)
+            st["ddl"] = {"if_not_exists": ine, "index": iname, "columns": cols, "unique": unique, "partial": partial}
             p.end()
         else:
             raise SqlError("unsupported CREATE form: %r" % text[:60])
